@@ -11,7 +11,7 @@ date first and the dependent is re-evaluated afterwards (C03).
 
 class Rec:
     __slots__ = ('built', 'failed', 'exists', 'who', 'seen', 'outver', 'content', 'always', 'watch_absent',
-                 'built_run', 'owner', 'phony', 'stamped', 'removed_mark', 'removed_run', 'extra', 'user_seen')
+                 'built_run', 'owner', 'phony', 'stamped', 'removed_mark', 'removed_run', 'extra', 'user_seen', 'tolerated')
 
     def __init__(self):
         self.built = False        # a build has been attempted and recorded
@@ -30,6 +30,7 @@ class Rec:
         self.removed_mark = False  # the user removed the produced file and it has not been rebuilt yet
         self.removed_run = -1      # run in which it was rebuilt after such a removal
         self.user_seen = False     # a command has met the user's version of this file
+        self.tolerated = False     # the last successful build carried on after a dependency had failed
         self.extra = {}            # checksummed targets redo built out of band on behalf of this target's script -> version
 
     def copy(self):
@@ -105,6 +106,9 @@ class Model:
             return 'do-changed'
         if r.always and r.built_run != self.run:
             return 'always'
+        if r.tolerated and r.built_run != self.run:
+            # built from a failure it chose to ignore: not up to date (C05), rebuilt once per run until it builds cleanly
+            return 'tolerated-failure'
         if r.watch_absent is not None and p.watch.get(r.watch_absent) is not None:
             return 'created:' + r.watch_absent
         c = self.cur_ctx
@@ -155,6 +159,10 @@ class Model:
             if s == 'uncertain':
                 res = ('uncertain', w)
         memo[key] = res
+        if res[0] == 'clean' and not forced and n not in ctx['done'] and ctx.get('memo_clean', True):
+            # redo marks everything it finds clean as "checked in this run" and does not look at it again in
+            # this run - not even if a dependency is force-rebuilt later in the same run (known finding, C02)
+            ctx['done'][n] = True
         return res
 
     def topmost(self, n, ctx, memo, acc):
@@ -220,6 +228,16 @@ class Model:
                 # n declared absorbed the change (known finding, keyed separately).
                 ctx['maybe'].add(n)
                 return self.run_script(n, ctx, 'extra-edge:' + trig)
+        if s == 'dirty' and not forced and (why or '').startswith('dep-failed:') and ctx['obs'] is not None and n not in ctx['obs']:
+            d = why.split(':', 1)[1]
+            if d in self.R and self.R[d].stamped and ctx['done'].get(d) is False:
+                # d is a checksummed dependency that failed in this run.  If redo judged n before d had failed,
+                # n was only "maybe dirty" and d was tried out of band on n's behalf: then n's script never
+                # starts.  Which of the two happened depends on evaluation order; the observation decides.
+                ctx['maybe'].add(n)
+                ctx['notrun_failed'].add(n)
+                ctx['done'][n] = False
+                return False
         ok = self.settle(n, ctx, s, why, forced)
         if ok is not None:
             return ok
@@ -340,8 +358,10 @@ class Model:
                 if not ok:
                     depfail = True
                     failed_known = True
+            r.tolerated = False
             if not depfail and t.get('opt'):
-                self.update(t['opt'], ctx)
+                if not self.update(t['opt'], ctx):
+                    r.tolerated = True
                 seen[t['opt']] = self.ver(t['opt'])
             if not depfail and t.get('watch'):
                 w = t['watch']
@@ -364,6 +384,12 @@ class Model:
         if t.get('stamp'):
             if (not r.stamped) or content != r.content:
                 r.outver += 1
+        elif n in ctx['rechecked'] and r.outver > 0:
+            # known finding (C02): a target force-rebuilt after it was already checked in this run is not
+            # marked as changed by redo (record_new_state takes "checked in this run" for "redo-stamp ran"),
+            # so nothing that depends on it ever sees this rebuild.  Adopt redo's view and report it.
+            if any(dn != n and n in dr.seen for dn, dr in self.R.items()):
+                ctx['absorbed'].add(n)
         else:
             r.outver += 1
         r.stamped = bool(t.get('stamp'))
@@ -397,7 +423,7 @@ class Model:
 
     def new_ctx(self, keep=False, obs=None):
         return dict(ran=[], done={}, keep=keep, obs=obs, reasons={}, ambiguous=set(), maybe=set(),
-                    notrun_failed=set(), late=set(), stack=[], extra_new={}, why_list=[], rechecked=set())
+                    notrun_failed=set(), late=set(), stack=[], extra_new={}, why_list=[], rechecked=set(), absorbed=set())
 
     def command(self, targets, forced=False, keep=False, obs=None, obsn=None):
         """One top-level `redo-ifchange targets...` (or `redo` when forced).  Returns (ok, ctx)."""
